@@ -551,6 +551,7 @@ func propC07(c *Ctx) {
 		hb := c.Method(childKeeper, "Keeper", "handleBridgeHook")
 		oh := c.Ob("C07.R2", "handleBridgeHook: handlers on the cache context; commit only after every handler succeeded; success only after commit")
 		oh3 := c.Ob("C07.R3", "handleBridgeHook: a recovering defer precedes decoder, ante decorators, handlers and commit")
+		oa := c.Ob("C07.R12", "handleBridgeHook: hook messages run only after the payload decoded and the ante decorators accepted the hook tx")
 		og := c.Ob("C07.R4", "handleBridgeHook: zero max gas runs nothing; inner context metered by min(remaining, hookMaxGas); consumed gas charged to the outer meter")
 		for _, p := range c.Paths(hb, PO{Params: []string{"k"}, Roles: hookRoles, Visits: 3}) {
 			oh.Paths++
@@ -563,6 +564,7 @@ func propC07(c *Ctx) {
 			commitIdx := -1
 			zeroGas := p.HasFact(len(p.Events), func(a *Term, pol bool) bool { return pol && eqAtom(a, "hookMaxGas", "0") })
 			var handlerCalls []*Term
+			var decCall, anteCall *Term
 			charged := false
 			for i := range p.Events {
 				ev := &p.Events[i]
@@ -622,7 +624,19 @@ func propC07(c *Ctx) {
 						og.Fail(c.evPos(ev), kind+" runs on a context whose gas meter is not bounded by min(remaining, hookMaxGas): "+trunc(ctxArg.Key(), 160), c.Dump(p, i))
 					}
 				}
+				if kind == "decoder" {
+					decCall = ev.Call
+				}
+				if kind == "decorators" {
+					anteCall = ev.Call
+				}
 				if kind == "handler" {
+					oa.Sites++
+					okDec := decCall != nil && p.factIs(i, "("+decCall.String()+".1 == nil)", true)
+					okAnte := anteCall != nil && p.factIs(i, "("+anteCall.String()+".1 == nil)", true)
+					if !okDec || !okAnte {
+						oa.Fail(c.evPos(ev), fmt.Sprintf("a hook message runs without: payload decoded [%v], ante decorators accepted the hook tx [%v] (a badly signed or undecodable payload must run nothing)", okDec, okAnte), c.Dump(p, i))
+					}
 					handlerCalls = append(handlerCalls, ev.Call)
 					if cache == nil || ev.Call.Args[0].String() != cache.String()+".0" {
 						oh.Fail(c.evPos(ev), "hook message handler does not run on the cache context", c.Dump(p, i))
